@@ -12,6 +12,8 @@ mod feat;
 mod corpus;
 #[cfg(feature = "b1")]
 mod meta;
+#[cfg(feature = "b1")]
+mod faults;
 mod xp;
 #[cfg(feature = "b1")]
 mod ir;
